@@ -450,7 +450,7 @@ def check_base_run(J, res, obs):
     """the base run: every expected mock was written where and how the contract says"""
     w, T, inst = J.w, J.T, J.inst
     if res.timed_out:
-        raise MachineryError(f"mockery timed out on world {w.idx}")
+        raise Stalled(f"mockery timed out on world {w.idx}")
     if res.panicked:
         J.viol("panic", focus_of(w), None, "no panic", res.brief())
         return
@@ -534,7 +534,7 @@ def mock_diffs(inst, e, o):
 
 
 # ----------------------------------------------------------------------------------------- running one world
-def run_bin(ctx, cwd, args, env, tracefile, timeout=120):
+def run_bin(ctx, cwd, args, env, tracefile, timeout=180):
     """thread-safe variant of ctx.run_mockery (which numbers its trace files with an unlocked counter)"""
     e = go_env(env)
     if tracefile is not None:
@@ -561,8 +561,24 @@ def varies(case, param):
     return any(param in unjson(v) for v in case["cfg"].values())
 
 
+class Stalled(Exception):
+    pass
+
+
 def run_world(ctx, T, case, idx, quick):
-    """materialise, run (base run + focus runs), judge.  Returns (violations, stats, base-run trace, world)."""
+    """one retry from scratch when a run stalls (an overloaded machine must not turn into a verdict or an abort)"""
+    try:
+        return run_world_once(ctx, T, case, idx, quick)
+    except Stalled:
+        shutil.rmtree(ctx.scratch / "worlds" / f"w{idx}", ignore_errors=True)
+        try:
+            return run_world_once(ctx, T, case, idx, quick)
+        except Stalled as ex:
+            raise MachineryError(str(ex))
+
+
+def run_world_once(ctx, T, case, idx, quick):
+    """materialise, run (base run + focus runs), judge.  Returns (violations, stats, base run, world, instance)."""
     w = World(ctx, T, case, idx)
     inst = w.at(w.dir / "base")
     J = Judge(ctx, w, inst)
@@ -612,7 +628,7 @@ def run_world(ctx, T, case, idx, quick):
                 fi.write({rel: fi.old_content(fm)})
                 r2 = run_bin(ctx, fi.W, fi.args, fi.env, None)
                 if r2.timed_out:
-                    raise MachineryError(f"mockery timed out on a focus run of world {w.idx}")
+                    raise Stalled(f"mockery timed out on a focus run of world {w.idx}")
                 now = open(os.path.join(fi.W, rel)).read()
                 if r2.panicked:
                     J.viol("panic", "force-file-write", m, "no panic", r2.brief())
@@ -624,7 +640,7 @@ def run_world(ctx, T, case, idx, quick):
                 fi.write()
                 r2 = run_bin(ctx, fi.W, fi.args, fi.env, None)
                 if r2.timed_out:
-                    raise MachineryError(f"mockery timed out on a focus run of world {w.idx}")
+                    raise Stalled(f"mockery timed out on a focus run of world {w.idx}")
                 if r2.panicked:
                     J.viol("panic", "require-template-schema-exists", m, "no panic", r2.brief())
                 elif m["require"] and r2.code == 0:
@@ -792,6 +808,10 @@ def replay_config_sources(ctx, T, cases):
         env = {"MOCKERY_CONFIG": "cfg_env.yml"} if "env" in given else {}
         args = ["--config", "cfg_flag.yml"] if "flag" in given else []
         res = run_bin(ctx, W, args, env, None)
+        if res.timed_out:
+            res = run_bin(ctx, W, args, env, None)
+            if res.timed_out:
+                raise MachineryError("mockery timed out on a config-source case")
         n += 1
         got = sorted(x[4:] for x in os.listdir(W) if x.startswith("out_"))
         sig = {"kind": "effective-mismatch", "param": "config", "set_at": "+".join(sorted(given)) or "nowhere",
